@@ -7,7 +7,7 @@ import re
 
 from ..core import (AnalysisError, body_nodes, call_name, dotted, enclosing_stmt, is_self_attr, key_text, names_in,
                     params, parent, stmts_of, unparse)
-from ..flow import reaching_defs
+from ..flow import possibly_undefined, reaching_defs
 from ..own import FuncInfo, Own
 
 SITE = 'tenpy/networks/site.py'
@@ -356,6 +356,46 @@ def check_owned_attrs(prog, rep, modules=(TERMS, SITE)):
     return n
 
 
+# reads the path-insensitive definite-assignment analysis cannot prove bound, confirmed by reading
+DEF_ACCEPTED = {
+    (SITE, 'GroupedSite.__init__', 'legs', "charges != 'same'"):
+        "read under `charges != 'same'`; the if/elif chain above binds `legs` for 'drop' and "
+        "'independent' and raises for anything else",
+}
+
+
+def check_def_before_use(prog, rep):
+    n = 0
+    for rel in (SITE, TERMS):
+        m = prog.module(rel)
+        for q, f in m.functions.items():
+            hits = possibly_undefined(f)
+            n += 1
+            seen = set()
+            for name, st, node in hits:
+                if (name, id(st)) in seen:
+                    continue
+                seen.add((name, id(st)))
+                guard = None
+                cur = st
+                while cur is not f and cur is not None and guard is None:
+                    p = parent(cur)
+                    if isinstance(p, ast.If):
+                        guard = ('' if cur in p.body else 'not ') + unparse(p.test)
+                    cur = p
+                acc = DEF_ACCEPTED.get((rel, q, name, guard))
+                rep.instance('DEF-before-use', {'function': q, 'name': name, 'accepted': acc})
+                if acc:
+                    continue
+                rep.violation('DEF-before-use', m, q, 'maybe-unbound:%s' % name,
+                              '`%s` is read in `%s` but a path from the entry of %s reaches this '
+                              'statement without binding it (UnboundLocalError for the option '
+                              'combination that takes that path)' % (name, key_text(st)[:70], q),
+                              node.lineno)
+    rep.instance('DEF-before-use', {'functions analysed': n})
+    return n
+
+
 # helper -> (position, keyword) of an argument whose value must be the same for every call of the
 # helper that re-computes the operators of one term: the flag says whether a Jordan-Wigner string
 # arrives from operators further right, which is a property of the term pair, not of the call.
@@ -429,6 +469,9 @@ def run(prog, rep, tier):
              'decision; the handlers branch on it as documented')
     rep.rule('RECOMPUTE-agree', 'calls that re-compute the operator list of one term pass the same '
              'JW_from_right value (same expression, same reaching definitions)')
+    rep.rule('DEF-before-use', 'definite assignment on the statement CFG of every function of '
+             'site.py and terms.py (same-guard, conjunct and run-at-least-once-loop idioms '
+             'recognised; remaining reads are in the confirmed table)')
     rep.rule('OWN-attr', 'attributes that may alias constructor arguments are not written in '
              'place')
     check_site_registry(prog, rep)
@@ -438,6 +481,9 @@ def run(prog, rep, tier):
     check_jw_entry_points(prog, rep)
     check_owned_attrs(prog, rep)
     check_recompute_agree(prog, rep)
+    ndef = check_def_before_use(prog, rep)
+    if ndef < 100:
+        raise AnalysisError('DEF-before-use analysed only %d functions of site.py/terms.py' % ndef)
     rep.floor('RECOMPUTE-agree', 2)
     rep.floor('SITE-registry', 12)
     rep.floor('JW-entry', 10)
